@@ -27,7 +27,11 @@ type Case struct {
 	Instances int           `json:"instances"`
 	Passes    int           `json:"passes"`
 	Preload   bool          `json:"preload,omitempty"`
-	Text      string        `json:"file_preview,omitempty"`
+	// Paced: two requests per second and instance, with response-header-timeout 150 ms and the
+	// idle connection timeout left at its 90 s: instances idle for ~0.5 s between their shots
+	// and must still find their connection open
+	Paced bool   `json:"paced,omitempty"`
+	Text  string `json:"file_preview,omitempty"`
 }
 
 var typeName = map[string]string{"uri": "uri", "uripost": "uripost", "raw": "raw", "jsonline": "http/json"}
@@ -92,9 +96,15 @@ func runCase(res *vkit.Result, c Case) {
 	if c.NoKeep {
 		gun["disable-keep-alives"] = true
 	}
+	rps := 400
+	if c.Paced {
+		gun["response-header-timeout"] = "150ms"
+		gun["idle-conn-timeout"] = "90s"
+		rps = 2 * c.Instances
+	}
 	ec, err := vkit.DecodePools(map[string]any{"pools": []any{map[string]any{
 		"id": "p", "ammo": ammo, "result": map[string]any{"type": "discard"}, "gun": gun,
-		"rps":     map[string]any{"type": "const", "ops": 400, "duration": "60s"},
+		"rps":     map[string]any{"type": "const", "ops": rps, "duration": "60s"},
 		"startup": map[string]any{"type": "once", "times": c.Instances},
 	}}})
 	if err != nil {
@@ -239,6 +249,11 @@ func gen(rng *rand.Rand, i int) Case {
 	}
 	c.SSL = c.Gun == "http" && rng.Intn(3) == 0
 	c.NoKeep = rng.Intn(3) == 0
+	if i%40 == 7 {
+		c.Paced, c.NoKeep, c.Preload = true, false, false
+		c.Instances = 1 + rng.Intn(3)
+		c.Passes = (4*c.Instances)/len(c.File.Entries()) + 1
+	}
 	// configured headers that collide with headers the generator uses, in other letter case too
 	if rng.Intn(4) != 0 {
 		for _, k := range []string{"X-Req", "x-req", "ACCEPT", "User-Agent", "X-Conf-Only", "Cookie", "x-upper-case", "Host", "host"} {
@@ -290,6 +305,8 @@ func seeds() []Case {
 		out = append(out, Case{File: mk(f), Gun: "http", Instances: 2, Passes: 1,
 			Conf: []vkit.KV{{K: "x-req", V: "from-config"}, {K: "Host", V: "confhost.example.org"}, {K: "X-Conf-Only", V: "c"}}})
 	}
+	out = append(out, Case{File: mk("uri"), Gun: "http", Instances: 2, Passes: 4, Paced: true})
+	out = append(out, Case{File: mk("uripost"), Gun: "connect", Instances: 1, Passes: 3, Paced: true})
 	return out
 }
 
